@@ -339,6 +339,9 @@ P["C15"] = {"property": "C15", "level": "proof", "units": [
     U("C15.__getter", "__getter -> jwt_get_int/str/bool (libjwt/jwt-setget.c)", SETGET_C, "contracts/jwt_setget_c.h",
       "json_t *w; jwt_value_t *v; __getter(w, v);", "__getter/contract_C15___getter", stubs=SETGET_STUBS, flags=[],
       expect=["contract_C15___getter\\.postcondition\\.5"]),
+    U("C15.__getter_json", "__getter -> jwt_get_json (libjwt/jwt-setget.c)", SETGET_C, "contracts/jwt_setget_c.h",
+      "json_t *w; jwt_value_t *v; __getter(w, v);", "__getter/contract_C15___getter_json", stubs=SETGET_STUBS, flags=[],
+      expect=["contract_C15___getter_json\\.postcondition\\.4"]),
     U("C15.__setter", "__setter -> jwt_set_int/str/bool -> jwt_obj_check (libjwt/jwt-setget.c)", SETGET_C, "contracts/jwt_setget_c.h",
       "json_t *w; jwt_value_t *v; __setter(w, v);", "__setter/contract_C15___setter", stubs=SETGET_STUBS, flags=[],
       expect=["contract_C15___setter\\.postcondition\\.4", "contract_C15___setter\\.postcondition\\.5"]),
